@@ -84,7 +84,7 @@ def main():
     print('demo passes without change:', ok_without, '| demo fails with change:', fails_with, '| existing tests pass with change:', suite_ok)
     # 4. our check against the change, on /repo itself
     det = None
-    if confirmed:
+    if confirmed and not os.environ.get('SEED_NO_CHECK'):
         rc, out = sh('git -C /repo status --porcelain')
         assert out.strip() == '', '/repo is not clean: ' + out
         rc, out = sh('git -C /repo apply %s' % os.path.abspath(diff))
